@@ -35,12 +35,13 @@ def gen_case(rng: random.Random, tier: str) -> dict:
         blk = gen.loop_block(rng, "L", L=1)
     order = list(range(len(blk["nodes"])))
     rng.shuffle(order)
-    return {"blk": blk, "order": order, "nested": nested, "async": [gen.gen_async_cfg(rng) for _ in range(2)], "tier": tier}
+    return {"blk": blk, "order": order, "nested": nested, "async": [gen.gen_async_cfg(rng) for _ in range(2)], "tier": tier,
+            "api": {"decorators": rng.random() < 0.35, "explicit_edges": rng.random() < 0.2, "wrap_async": False}}
 
 
 def _graph(doc: dict) -> dict:
     blk = doc["blk"]
-    g = loop_graph(blk, doc["order"], name="loop")
+    g = gen.with_api(loop_graph(blk, doc["order"], name="loop"), doc.get("api"))
     if not doc.get("nested"):
         return g
     outs = [blk["state"][0]] + (["Lout"] if blk["exit"] else [])
@@ -56,9 +57,12 @@ def _entries(graph, blk: dict) -> list[tuple[str, int, dict]]:
     for name in sorted(eps):
         if name.startswith(f"{pfx}b") and name[len(pfx) + 1 :].isdigit():
             i = int(name[len(pfx) + 1 :])
-            if blk.get("late") and i != 0:
-                continue  # late-signal template: only the canonical entry is modelled
-            out.append((name, i, {p: 0 for p in eps[name]}))
+            if (blk.get("late") or blk.get("gate_late")) and i != 0:
+                continue  # late-signal / late-gate templates: only the canonical entry is modelled
+            vals = {p: 0 for p in eps[name]}
+            if blk.get("gate_late"):
+                vals[f"{pfx}budget"] = 5
+            out.append((name, i, vals))
     return out
 
 
@@ -77,20 +81,20 @@ def _judge(doc, blk, entry_i, w, tag, viol, exp=None) -> None:
         viol.append((f"{tag}:body_execution_count_differs_from_sequential_loop", {"got": got["body_counts"], "model": exp["body_counts"], "blk": _p(blk), "entry": entry_i}))
     elif final != exp["s"]:
         viol.append((f"{tag}:final_loop_value_differs", {"got": final, "model": exp["s"], "blk": _p(blk), "entry": entry_i}))
-    elif got["gate_evals"] != exp["gate_evals"] and not blk.get("late"):
+    elif got["gate_evals"] != exp["gate_evals"] and not blk.get("late") and not blk.get("gate_late"):
         viol.append((f"{tag}:gate_evaluation_count_differs", {"got": got["gate_evals"], "model": exp["gate_evals"], "blk": _p(blk), "entry": entry_i}))
     if blk["exit"]:
         if vals.get(f"{pfx}out") != exp["exit_value"]:
             viol.append((f"{tag}:exit_node_value_differs", {"got": vals.get(f"{pfx}out"), "model": exp["exit_value"], "blk": _p(blk)}))
         allowed = {1, 2} if (blk["signal"] and blk["open"]) else {1}
-        if blk.get("late"):
+        if blk.get("late") or blk.get("gate_late"):
             allowed = {1, 2}
         if got["fin"] not in allowed:
             viol.append((f"{tag}:exit_node_ran_wrong_number_of_times", {"got": got["fin"], "allowed": sorted(allowed), "blk": _p(blk)}))
 
 
 def _p(blk: dict) -> dict:
-    return {k: blk.get(k) for k in ("L", "N", "gate", "exit", "signal", "open", "late")}
+    return {k: blk.get(k) for k in ("L", "N", "gate", "exit", "signal", "open", "late", "gate_late")}
 
 
 def run_case(doc: dict) -> dict:
@@ -102,10 +106,13 @@ def run_case(doc: dict) -> dict:
     sigs = []
     nontrivial = False
     try:
-        probe = run_world(g, {blk["seed"]: 0, "x": 1} if doc.get("nested") else {blk["seed"]: 0}, mode="sync")
+        seedvals = {blk["seed"]: 0}
+        if blk.get("gate_late"):
+            seedvals[f"{blk['prefix']}budget"] = 5
+        probe = run_world(g, dict(seedvals, x=1) if doc.get("nested") else dict(seedvals), mode="sync")
         rts.append(probe["rt"])
         if doc.get("nested"):
-            entries = [(None, 0, {blk["seed"]: 0, "x": 1})]
+            entries = [(None, 0, dict(seedvals, x=1))]
         else:
             entries = _entries(probe["graph"], blk)
             if not entries:
@@ -197,7 +204,7 @@ def shrink_candidates(doc: dict):
         trials.append(dict(params, gate="route"))
     for t in trials:
         c = copy.deepcopy(doc)
-        c["blk"] = gen.loop_block(_r.Random(0), "L", L=t["L"], N=t["N"], gate=t["gate"], exit_node=t["exit"], signal=t["signal"], default_open=t["open"], late=bool(t.get("late")))
+        c["blk"] = gen.loop_block(_r.Random(0), "L", L=t["L"], N=t["N"], gate=t["gate"], exit_node=t["exit"], signal=t["signal"], default_open=t["open"], late=bool(t.get("late")), gate_late=bool(t.get("gate_late")))
         c["order"] = list(range(len(c["blk"]["nodes"])))
         yield c
     if doc.get("nested"):
